@@ -152,7 +152,9 @@ class SpyRegressor(RegressorMixin, _PanelSpy):
             raise RuntimeError("SpyRegressor.predict before fit")
         ids, hs = self._values(X)
         _record(self.tag, "predict", ids=list(ids))
-        return np.array([(h % 1000003) / 64.0 for h in hs], dtype=float)
+        # (values with a full 17-digit decimal expansion: a store that does not round-trip
+        # floats exactly shows)
+        return np.array([(h % 1000003) / 64.0 + (h % 9973) / 9973.0 / 1000.0 for h in hs], dtype=float)
 
 
 # ------------------------------------------------------------------ tabular stub
